@@ -49,7 +49,15 @@ def gen_history(rng, nclients: int, maxlen: int, with_drops: bool = True):
         if k == "get":
             ops.append(["get", c, pick(KEYS)])      # (lock keys hold raw tokens, not serializer output: they are probed with exists)
         elif k == "getmany":
-            ops.append(["getmany", c, rng.sample(KEYS + ["k:zz"], rng.randint(1, 3))])
+            ks = rng.sample(KEYS + ["k:zz"], rng.randint(1, 3))
+            if rng.random() < 0.2:
+                ks.insert(rng.randint(0, len(ks)), pick(ks))        # a key asked for twice: one answer per position
+            if rng.random() < 0.35:
+                # a caller's default that a stored value may EQUAL (0, None): the answer must not be remembered as "absent"
+                ops.append(["getmany", c, ks, pick(["i0", "none"])])
+                ops.append(["get", c, pick(ks)])
+            else:
+                ops.append(["getmany", c, ks])
         elif k == "exists":
             ops.append(["exists", c, pick(KEYS + LOCKS)])
         elif k == "getmatch":
@@ -327,8 +335,7 @@ def rename_ops(ops, km: dict):
         if n in ("get", "exists", "delete", "getexpire", "set", "incr", "expire", "setlock", "unlock"):
             op[2] = r(op[2])
         elif n in ("getmany", "delmany"):
-            ks = [r(k) for k in op[2]]
-            op[2] = [k for i, k in enumerate(ks) if k not in ks[:i]]       # (a renaming never merges keys; defensive)
+            op[2] = [r(k) for k in op[2]]
         elif n == "setmany":
             op[3] = [[r(k), v] for k, v in op[3]]
         out.append(op)
@@ -454,11 +461,14 @@ class Runner:
             want, _ = await self.server_value(op[2])
             return "v=" + await tok(await b.get(op[2], default=SENT)), "v=" + want
         if n == "getmany":
+            dflt = SENT if len(op) < 4 else VALUES[op[3]]
+            dtok = await tok(dflt)
             want = [(await self.server_value(k))[0] for k in op[2]]
-            vs = await b.get_many(*op[2], default=SENT)
-            if len(vs) != len(op[2]):
-                return f"?shape:{len(vs)}", None
-            return "vs=" + ",".join([await tok(v) for v in vs]), "vs=" + ",".join(want)
+            vs = await b.get_many(*op[2], default=dflt)
+            if not isinstance(vs, tuple) or len(vs) != len(op[2]):
+                return f"?shape:{len(vs)} answers for {len(op[2])} keys", None
+            # (with a default of the caller's, "nothing there" reads as that default)
+            return "vs=" + ",".join([await tok(v) for v in vs]), "vs=" + ",".join(dtok if w == "-" else w for w in want)
         if n == "exists":
             _, p = await self.server_value(op[2])
             return _bool(await b.exists(op[2])), "T" if p else "F"
@@ -562,6 +572,9 @@ def run_case(drv, nclients, ops, prefix=None):
             if not a.startswith("model="):
                 raise HarnessError(f"driver answered {a!r} to `{line}`")
             model = a.split(" ")[0].split("=", 1)[1]
+            if op[0] == "getmany" and len(op) > 3 and model.startswith("vs="):
+                dtok = await rn.codec.tok(VALUES[op[3]])
+                model = "vs=" + ",".join(dtok if x == "-" else x for x in model[3:].split(","))
             mq = a.split(" q=")[1]
             # the model delivers explicitly: after every command, every connected client
             if op[0] not in ("drop",):
